@@ -21,7 +21,7 @@ Definition derives_ok_std := Compile.derives_ok Extracted.x_idents_checked_run.
 Definition fields_ok_std := Subst.fields_ok_b Extracted.fcfg_run.
 
 Extraction "model.ml"
-  WellFormed.well_formed LRTerm.well_formed_lr OnceWF.well_formed_once Subst.grel_b fields_ok_std Model.grammar_size
+  WellFormed.well_formed LRTerm.well_formed_lr OnceWF.well_formed_once_all Subst.grel_b fields_ok_std Model.grammar_size
   compile_std idents_ok_std derives_ok_std Extracted.x_raw_kw_guard_run
   pretty_exec Pretty.pretty_spec
   Utf8.decode_str Utf8.encode_str
